@@ -74,25 +74,39 @@ def partitions(tier):
                                              'oracle': 'required-tokens',
                                              'pinned_first_bits': list(pin)}})
                 if not pin or sum(pin) == 0:
-                    parts.append({'name': (nm if not pin else nm[:nm.rindex('_p')]) + '_hash0', 'kind': 'choices',
-                                  'run': B.make_run(st, j, sc, ms, tier,
-                                                    SC.check_fixed_point, (),
-                                                    oracle='hash0'),
-                                  'budget_s': 170 if tier == 'quick' else 850,
-                                  'bounds': {'strategy': st, 'script': sc,
-                                             'mutators': ms, 'jobs': j,
-                                             'oracle': 'hash-classes',
-                                             'pinned_first_bits': list(pin)}})
+                    base_nm = nm if not pin else nm[:nm.rindex('_p')]
+                    for hp in ([()] if tier == 'quick' or j == 1
+                               else [(0,), (1,)]):
+                        parts.append({'name': base_nm + (f'_q{hp[0]}' if hp
+                                                        else '') + '_hash0',
+                                      'kind': 'choices',
+                                      'run': B.make_run(st, j, sc, ms, tier,
+                                                        SC.check_fixed_point,
+                                                        hp, oracle='hash0'),
+                                      'budget_s': 170 if tier == 'quick'
+                                      else 850,
+                                      'bounds': {'strategy': st, 'script': sc,
+                                                 'mutators': ms, 'jobs': j,
+                                                 'oracle': 'hash-classes',
+                                                 'pinned_first_bits':
+                                                 list(hp)}})
                 if not pin or sum(pin) == 0:
-                    parts.append({'name': (nm if not pin else nm[:nm.rindex('_p')]) + '_hash1', 'kind': 'choices',
-                                  'run': B.make_run(st, j, sc, ms, tier,
-                                                    SC.check_fixed_point, (),
-                                                    oracle='hash1'),
-                                  'budget_s': 170 if tier == 'quick' else 850,
-                                  'bounds': {'strategy': st, 'script': sc,
-                                             'mutators': ms, 'jobs': j,
-                                             'oracle': 'hash-classes',
-                                             'pinned_first_bits': list(pin)}})
+                    base_nm = nm if not pin else nm[:nm.rindex('_p')]
+                    for hp in ([()] if tier == 'quick' or j == 1
+                               else [(0,), (1,)]):
+                        parts.append({'name': base_nm + (f'_q{hp[0]}' if hp
+                                                        else '') + '_hash1',
+                                      'kind': 'choices',
+                                      'run': B.make_run(st, j, sc, ms, tier,
+                                                        SC.check_fixed_point,
+                                                        hp, oracle='hash1'),
+                                      'budget_s': 170 if tier == 'quick'
+                                      else 850,
+                                      'bounds': {'strategy': st, 'script': sc,
+                                                 'mutators': ms, 'jobs': j,
+                                                 'oracle': 'hash-classes',
+                                                 'pinned_first_bits':
+                                                 list(hp)}})
                 parts.append({'name': nm, 'kind': 'choices',
                               'run': B.make_run(st, j, sc, ms, tier,
                                                 SC.check_fixed_point, pin),
